@@ -549,6 +549,24 @@ def _first_use_race_case(draw):
   return {'kind': 'threads', 'programs': programs, 'schedule': schedule}
 
 
+@st.composite
+def _overlapping_readers_case(draw):
+  """Two or three threads read the operative config at overlapping times while another thread's
+  calls add records (new scopes and probes): a reader that is still at it when another reader
+  has finished must be as safe as the first one."""
+  call = st.tuples(st.just('call'), st.integers(0, N_PROBES - 1), st.integers(0, 3),
+                   st.integers(0, 2)).map(list)
+  readers = [[['read']] * draw(st.integers(1, 2)) for _ in range(draw(st.integers(2, 3)))]
+  writer = draw(st.lists(call, min_size=2, max_size=5))
+  warm = draw(st.lists(call, min_size=1, max_size=3))      # so that there is something to format
+  programs = [warm + readers[0]] + readers[1:] + [writer]
+  schedule = {'t': draw(st.lists(st.integers(0, 3), max_size=60)),
+              's': draw(st.integers(1, 2**31)), 'n': draw(st.sampled_from([300, 560, 1500])),
+              'burst': draw(st.booleans())}
+  return {'kind': 'threads', 'programs': programs, 'schedule': schedule}
+
+
 def strategy():
   return st.one_of(_threads_case(), _threads_case(), _record_growth_case(), _sequential_case(),
-                   _flaky_race_case(), _ctor_waits_case(), _first_use_race_case())
+                   _flaky_race_case(), _ctor_waits_case(), _first_use_race_case(),
+                   _overlapping_readers_case())
